@@ -53,6 +53,12 @@ def check(ctx):
                "under the WBS root task", floor=4)
     ctx.guarded(o, lambda o: c01.mirror_parent(ctx, o))
 
+    o = ctx.ob('shared_child_list', 'R1',
+               "one child list object per task, shared with every children facade: facades change it in place and publish that very object, "
+               "nothing rebinds it (otherwise a list obtained earlier goes stale and a later remove()/append() through it re-attaches or "
+               "drops tasks)", floor=4)
+    ctx.guarded(o, lambda o: T.shared_list(ctx, o))
+
     o = ctx.ob('removal_paths_delegate', 'R8',
                "list removal, remove_all, WBS.remove / remove_all and roots assignment all end in a children assignment on the owning task", floor=4)
     ctx.guarded(o, lambda o: removal_paths(ctx, o))
